@@ -123,6 +123,7 @@ def run(rep, tier, seed):
     maxlen = 6 if tier == 'thorough' else 5
     tables = flag_tables()
     Ls = [make_licensing(T) for T in tables]
+    Lloose = [make_licensing(T, form='loose') for T in tables]
     strings = list(gen.token_strings(maxlen))
     for simple in (False, True):
         base = {}
@@ -149,6 +150,16 @@ def run(rep, tier, seed):
                 rep.count('nonstrict_ok' if ns[0] == 0 else 'nonstrict_rejected')
                 if ns[0] == 0:
                     rep.count('strict_ok' if st[0] == 0 else 'strict_rejected_%s' % (st[1] if st[0] == 1 else 'other'))
+                if not err and ('with' in t or i % 4 == 0):
+                    # the same flags given as other values of the same truth ('' / None / 0 for no, 1 / 'yes' for yes)
+                    e2, ns2, st2 = check_one(t, simple, T, Lloose[ti], base.get(t))
+                    rep.count('loose_flag_values')
+                    if e2 or (ns2, st2) != (ns, st):
+                        rep.violations.append({'key': 'strict', 'kind': 'tokens', 'tokens': list(t), 'simple': simple, 'loose': True,
+                                               'table': T, 'base_table': tables[0], 'text': gen.render_tokens(t),
+                                               'what': 'exception flags given as \'\' / None / 0 / 1 / \'yes\': %s'
+                                                       % (e2 or 'outcomes %r, with True / False %r' % ((ns2, st2), (ns, st)))})
+                        continue
                 if err:
                     rep.violations.append({'key': 'strict', 'kind': 'tokens', 'tokens': list(t), 'simple': simple,
                                            'table': T, 'base_table': tables[0], 'text': gen.render_tokens(t), 'what': err,
@@ -164,7 +175,7 @@ def run(rep, tier, seed):
 def replay(payload):
     T = [tuple(x) for x in payload['table']]
     T = [(k, a, e) for k, a, e in T]
-    L = make_licensing(T)
+    L = make_licensing(T, form='loose' if payload.get('loose') else None)
     base = None
     if payload.get('base_table') is not None:
         T0 = [(k, a, e) for k, a, e in payload['base_table']]
